@@ -405,7 +405,9 @@ impl Prop for GeneratedVoice {
             Err(e) => fail!("harness-reader", "independent reader cannot read the generated voice: {}", e),
         };
         check_reader_against_spec(&c.voice, &file)?;
-        let tmp = TempVoice(write_temp(&bytes, "c04"));
+        // half of the cases reuse one path per thread for ever-changing contents
+        let reuse = c.voice.num_states % 2 == 0;
+        let tmp = TempVoice(if reuse { crate::voice::write_temp_reused(&bytes, "c04") } else { write_temp(&bytes, "c04") });
         let voice = match load_htsvoice_file(&tmp.0) {
             Ok(v) => v,
             Err(e) => fail!("load-valid-voice", "jbonsai rejects a well-formed generated voice: {}", e),
@@ -425,6 +427,7 @@ impl Prop for GeneratedVoice {
         rep.class(format!("nstate:{}", c.voice.num_states));
         let single = c.voice.streams.iter().flat_map(|s| s.model.trees.iter()).filter(|t| t.nodes.is_empty()).count();
         rep.class_if(single > 0, "has-single-leaf-tree");
+        rep.class_if(reuse, "path-reused");
         rep.class_if(c.voice.streams.iter().any(|s| s.windows.iter().any(|w| w.len() == 5)), "has-width5-window");
         Ok(rep)
     }
